@@ -242,5 +242,85 @@ Theorem C23_a_refuted_before_repair :
   la_run true = [OYield 2; OYield 0; OYield 1; OYield 3; OReturn VNone].
 Proof. vm_compute. split; reflexivity. Qed.
 
-(* Full statement of the property (kept for reference).  Proved above: run_wrapper, stage_wrapper, subs_wrapper,
-   suspend_wrapper.  The lazily_stage / monitor_during / fly_during clauses are stated in their own sections below. *)
+(* ------------------------------------------------------------------ monitor_during_wrapper / fly_during_wrapper *)
+From BV Require Import Gen.During Proofs.During.
+
+(* The wrappers are two nested instances of plan_mutator (C21's verified machine) with list-inserting processors.
+   For EVERY wrapped plan and EVERY script that only sends (every message succeeds; any length), with enough fuel for the
+   machine's internal loop: the wrapper's trace is the two-fold EXPANSION of the wrapped plan -- [after] inserted behind
+   every open_run message object the plan yields for the first time, [before] in front of every close_run message
+   object it yields for the first time (a message OBJECT yielded again passes bare: finding C23-c). *)
+Theorem C23_during_is_expansion :
+  forall (P : Type) (resume : P -> input -> outcome P) (view : msg -> mview) (is_status : val -> bool)
+         (after before : list msg) (p : P) (s : list input) (fuel : nat),
+    Forall (fun a => is_open view a = false) after -> Forall (fun a => is_close view a = false) before ->
+    sends_only s = true ->
+    trace (during_resume resume view is_status (8 + fuel) after before) (during_init p) (Send VNone :: s)
+    = trace (exp_resume (exp_resume resume (ins_after view after)) (ins_before view before)) (EStart (EStart p)) (Send VNone :: s).
+Proof. exact @during_is_expansion. Qed.
+Print Assumptions C23_during_is_expansion.
+
+(* reading the expansion (any layer: [qres] is the wrapped plan for the open_run layer, the open_run layer for the
+   close_run layer).  Before: a message the layer has not seen, with [pre] to insert before it: the inserted messages,
+   each answered, then the message itself -- nothing in between, every time.  For the close_run layer [pre] is
+   unmonitor of each signal / complete of each flyer, wait, collect of each flyer (C23_during_lists). *)
+Theorem C23_expansion_before :
+  forall (Q : Type) (qres : Q -> input -> outcome Q) (ins : msg -> option (list msg) * option (list msg))
+         q q' seen v m pre post vs,
+    qres q (Send v) = Yielded m q' -> mem_nat m seen = false -> ins m = (Some pre, post) -> length vs = length pre ->
+    trace (exp_resume qres ins) (EOwn q seen None) (Send v :: map Send vs) = map OYield (pre ++ [m]).
+Proof. exact @expansion_before. Qed.
+Print Assumptions C23_expansion_before.
+
+(* After: the message is out with [post] to follow: once it is answered the post-messages come one per answer
+   (monitor of each signal / kickoff of each flyer, wait), and the plan is then resumed with the answer the message itself got *)
+Theorem C23_expansion_after :
+  forall (Q : Type) (qres : Q -> input -> outcome Q) (ins : msg -> option (list msg) * option (list msg))
+         q seen v a post vs,
+    S (length vs) = length (a :: post) ->
+    trace (exp_resume qres ins) (EOwn q seen (Some (a :: post))) (Send v :: map Send vs) = map OYield (a :: post).
+Proof. exact @expansion_after. Qed.
+Print Assumptions C23_expansion_after.
+
+Theorem C23_during_lists :
+  forall (mk : mview -> msg) (view : msg -> mview), (forall v, view (mk v) = v) ->
+  forall devs,
+    (Forall (fun a => is_open view a = false) (monitor_after mk devs) /\ Forall (fun a => is_close view a = false) (monitor_before mk devs)) /\
+    (Forall (fun a => is_open view a = false) (fly_after mk devs) /\ Forall (fun a => is_close view a = false) (fly_before mk devs)).
+Proof. intros mk view H devs. split; [exact (monitor_lists_clean mk view H devs)|exact (fly_lists_clean mk view H devs)]. Qed.
+Print Assumptions C23_during_lists.
+
+(* non-vacuity: one run with two monitored signals *)
+Definition du_tbl : list mview := [VOpen; VCmd 0 0; VClose None None; VMonitor 0; VMonitor 1; VUnmonitor 0; VUnmonitor 1].
+Definition du_plan : stmt := SSeq (SYield (Some 0) 0) (SSeq (SYield None 1) (SSeq (SYield None 2) (SReturn (RVar 0)))).
+Example C23_during_nonvacuous :
+  let s := [Send (VInt 7); Send VNone; Send VNone; Send VNone; Send VNone; Send VNone; Send VNone] in
+  sends_only s = true /\
+  trace (during_resume (cl_resume tie_fuel) (view_t du_tbl) is_status_t (8 + 0)
+                       (monitor_after (mk_t du_tbl) [0; 1]) (monitor_before (mk_t du_tbl) [0; 1]))
+        (during_init (cl_init du_plan)) (Send VNone :: s)
+  = [OYield 0; OYield 3; OYield 4; OYield 1; OYield 5; OYield 6; OYield 2; OReturn (VInt 7)].
+Proof. vm_compute. split; reflexivity. Qed.
+
+(* Full statement of the property, for reference.  Proved above: every clause, with these qualifications (hence
+   no theorem is called C23_full): the trace theorems are for scripts that neither close nor halt the wrapper; the
+   monitor_during / fly_during clause is for scripts that only send (each inserted message succeeds) and for message
+   objects the wrapped plan yields for the first time (class C23-c); lazily_stage_wrapper is the code with
+   fixes/C23-a.diff and answers to its stage messages that are None or a device list (class C23-b). *)
+Definition C23_full : Prop :=
+  forall (P : Type) (resume : P -> input -> outcome P) (mk : mview -> msg) (view : msg -> mview) (is_status : val -> bool)
+         (set_iter : list val -> list val) (root : dev -> dev) (resp_devs : val -> option (list dev)) (fuel : nat)
+         (p : P) (s : list input),
+    (forall v, view (mk v) = v) ->
+    (* every script, including close / PlanHalt at any point, every answer kind, every repeated message object *)
+    (forall roots, trace (stage_wrapper_resume resume mk is_status roots) (stage_wrapper_init mk roots p) (Send VNone :: s)
+                   = stage_ref resume mk is_status roots p s) /\
+    (forall susps, trace (suspend_wrapper_resume resume mk is_status susps) (suspend_wrapper_init mk susps p) (Send VNone :: s)
+                   = suspend_ref resume mk is_status susps p s) /\
+    (forall subs, trace (subs_resume resume mk is_status set_iter) (subs_wrapper_init mk subs p) (Send VNone :: s)
+                  = subs_ref resume mk is_status set_iter subs p s) /\
+    trace (rw_resume resume mk is_status) (run_wrapper_init p) (Send VNone :: s) = OYield (mk VOpen) :: run_ref resume mk is_status p s /\
+    (forall devs, trace (during_resume resume view is_status (8 + fuel) (monitor_after mk devs) (monitor_before mk devs))
+                        (during_init p) (Send VNone :: s)
+                  = trace (exp_resume (exp_resume resume (ins_after view (monitor_after mk devs))) (ins_before view (monitor_before mk devs)))
+                          (EStart (EStart p)) (Send VNone :: s)).
